@@ -50,9 +50,12 @@ func c08Capture(pub [32]byte, ws bool, browser string, skew time.Duration) ([]by
 	return c08CaptureAt(pub, ws, browser, func() time.Time { return time.Now().Add(skew) })
 }
 
+// identity put into captured first packets (changed temporarily by checks that need other credentials)
+var c08CaptureUID, c08CaptureMethod = "c08-bypass-user!", "shadowsocks"
+
 // c08CaptureAt is c08Capture with an arbitrary client clock.
 func c08CaptureAt(pub [32]byte, ws bool, browser string, clientNow func() time.Time) ([]byte, Transport, error) {
-	cfg := vClientCfg{UID: vUIDb64([]byte("c08-bypass-user!")), Method: "shadowsocks", Enc: "plain", NumConn: 1, Browser: browser, Transport: "direct", ServerName: "www.example.com"}
+	cfg := vClientCfg{UID: vUIDb64([]byte(c08CaptureUID)), Method: c08CaptureMethod, Enc: "plain", NumConn: 1, Browser: browser, Transport: "direct", ServerName: "www.example.com"}
 	if ws {
 		cfg.Transport = "cdn"
 	}
